@@ -303,8 +303,14 @@ impl TcpSession {
     }
 
     fn front_hup(&mut self) -> SessionResult {
+        let unread_bytes = self.front_readiness().event.is_readable();
         match &mut self.state {
             TcpStateMachine::Pipe(pipe) => pipe.frontend_hup(&mut self.metrics),
+            // The client closed behind bytes it sent while the session was
+            // still in a PROXY-protocol state: the backend is owed its header
+            // and those bytes. Go on; the pipe this state upgrades to meets the
+            // end of stream when it reads, delivers what came first and closes.
+            _ if unread_bytes => SessionResult::Continue,
             _ => {
                 self.log_request();
                 SessionResult::Close
@@ -864,10 +870,12 @@ impl TcpSession {
 
         if self.front_readiness().event.is_hup() {
             let session_result = self.front_hup();
-            if session_result == SessionResult::Continue {
-                self.front_readiness().event.remove(Ready::HUP);
+            if session_result != SessionResult::Continue {
+                return session_result;
             }
-            return session_result;
+            // the pipe still has bytes of the departed client to deliver: the
+            // loop below does it (no further event may ever come for them)
+            self.front_readiness().event.remove(Ready::HUP);
         }
 
         while counter < MAX_LOOP_ITERATIONS {
